@@ -251,7 +251,9 @@ carquet_status_t carquet_delta_strings_encode(
     }
 
     /* Encode prefix lengths */
-    size_t delta_capacity = (size_t)num_values * 10 + 100;
+    /* Worst case of DELTA_BINARY_PACKED for int32: a 40-byte header, then per block of 128
+     * deltas a min-delta varint (10 bytes), 4 width bytes and 128 values of at most 32 bits */
+    size_t delta_capacity = 40 + ((size_t)num_values / 128 + 1) * (10 + 4 + 128 * 4);
     uint8_t* delta_buffer = malloc(delta_capacity);
     if (!delta_buffer) {
         free(prefix_lengths);
